@@ -19,6 +19,7 @@ OL_RETURN: _ol_reserved_name = "__ol_ret_{}"
 OL_NONLOCAL_DICT: _ol_reserved_name = "__ol_nonlocal_{}"
 OL_CLASS_DICT: _ol_reserved_name = "__ol_classnsp_{}"
 OL_CLASS_LOADER: _ol_reserved_name = "__ol_loader_{}"
+OL_CLASS_TMP: _ol_reserved_name = "__ol_class_{}"
 OL_IMPORT_TMP: _ol_reserved_name = "__ol_mod_{}"
 OL_ITERTOOLS: _ol_reserved_name = "__ol_itertools"  # don't need format here
 OL_IMPORTLIB: _ol_reserved_name = "__ol_importlib"  # don't need format here
